@@ -5,7 +5,18 @@
 //        fresh Topology, setBox(m[, type]) (row major; columns = box vectors), beads at the
 //        given positions, IBond/IAngle/IDihedral on beads 0..n-1
 //        -> "res <EvaluateVar> <Grad(0)> <Grad(1)> ..."   (3 numbers per bead)
+//   top new            session Topology with 9 beads; IBond/IAngle/IDihedral constructed from ONE bead list
+//                      {5,2,7,0,3,1,8,4,6} (the list constructors pop their beads, as the topology readers
+//                      use them), setGroup/setIndex/setMolecule, Topology::AddBondedInteraction
+//   tev <kind> <type> m00 .. m22 positions...   on the session topology: setBox again, move the beads of that
+//                      interaction, evaluate through Topology::BondedInteractions() (base-class pointers)
+//                      -> "res ..." as for ia
 //   pf <lj126|ljg|cbspl> <min> <cut> <nlam> l0 l1 ...       construct + setParam(vector)
+//   setvec n l0 ..     setParam(vector) on the existing object;  setpar i v -> setParam(i, v)
+//   setmin v | setcut v  -> setMinDist / setCutOffDist
+//   saveparam          -> SaveParam(file) -> "rows n" + "row x y flag" (file kept for loadfile)
+//   loadfile           -> setParam(file) with the file of the last saveparam
+//   loadparam n v0 ..  -> write "i v_i" lines to a file, setParam(file)
 //        -> "ok nlam <getParamSize> nopt <getOptParamSize>"
 //   F r | DF i r | D2F i j r            -> "v <number>"
 //   setopt i v | getopt i | params      -> setOptParam / getOptParam / Params()
@@ -18,6 +29,7 @@
 #include <cstdlib>
 #include <fstream>
 #include <iostream>
+#include <list>
 #include <memory>
 #include <sstream>
 #include <stdexcept>
@@ -46,7 +58,7 @@ static std::string tmpname() {
   return p;
 }
 
-static void print_table_file(const std::string &fn) {
+static void print_table_file(const std::string &fn, bool keep = false) {
   std::ifstream in(fn);
   if (!in) throw std::runtime_error("driver: table file not written");
   std::vector<std::string> rows;
@@ -57,8 +69,11 @@ static void print_table_file(const std::string &fn) {
   }
   std::cout << "rows " << rows.size() << std::endl;
   for (auto &r : rows) std::cout << "row " << r << std::endl;
-  std::remove(fn.c_str());
+  if (!keep) std::remove(fn.c_str());
 }
+
+// beads of the three session interactions (bond, angle, dihedral), in the order of the bead list
+static const int kSessionBeads[3][4] = {{5, 2, -1, -1}, {7, 0, 3, -1}, {1, 8, 4, 6}};
 
 int main() {
   std::string line;
@@ -66,6 +81,8 @@ int main() {
   std::cout.precision(17);
   std::unique_ptr<PotentialFunction> pf;
   std::unique_ptr<tools::Spline> spl;
+  std::unique_ptr<Topology> stop;
+  std::string parfile;
   while (std::getline(std::cin, line)) {
     ++seq;
     std::istringstream in(line);
@@ -114,6 +131,116 @@ int main() {
           std::cout << " " << g[0] << " " << g[1] << " " << g[2];
         }
         std::cout << std::endl;
+      } else if (cmd == "top") {
+        stop.reset(new Topology());
+        stop->RegisterBeadType("A");
+        for (int i = 0; i < 9; ++i) {
+          Bead *b = stop->CreateBead(Bead::spherical, "b" + std::to_string(i), "A", 0, 1.0, 0.0);
+          b->setPos(Eigen::Vector3d(100.0 + 7.0 * i, -50.0 + 3.0 * i, 11.0 * i));
+        }
+        std::list<Index> l = {5, 2, 7, 0, 3, 1, 8, 4, 6};
+        Interaction *ib = new IBond(l);
+        Interaction *ia = new IAngle(l);
+        Interaction *id = new IDihedral(l);
+        if (!l.empty()) throw std::runtime_error("driver: bead list not consumed");
+        int n = 0;
+        for (Interaction *x : {ib, ia, id}) {
+          x->setGroup(n == 0 ? "bond" : (n == 1 ? "angle" : "dihedral"));
+          x->setIndex(n);
+          x->setMolecule(0);
+          stop->AddBondedInteraction(x);  // the topology owns it from here
+          ++n;
+        }
+        std::cout << "ok " << stop->BondedInteractions().size();
+        for (Interaction *x : stop->BondedInteractions()) std::cout << " [" << x->getName() << "]";
+        std::cout << std::endl;
+      } else if (cmd == "tev") {
+        std::string kind, req;
+        in >> kind >> req;
+        Eigen::Matrix3d m;
+        for (int i = 0; i < 3; ++i)
+          for (int j = 0; j < 3; ++j) in >> m(i, j);
+        int which = kind == "bond" ? 0 : (kind == "angle" ? 1 : 2);
+        int n = which + 2;
+        if (!stop) throw std::runtime_error("driver: no session topology");
+        if (req == "auto")
+          stop->setBox(m);
+        else if (req == "tric")
+          stop->setBox(m, BoundaryCondition::typeTriclinic);
+        else if (req == "ortho")
+          stop->setBox(m, BoundaryCondition::typeOrthorhombic);
+        else if (req == "open")
+          stop->setBox(m, BoundaryCondition::typeOpen);
+        else
+          throw std::runtime_error("driver: unknown box type " + req);
+        for (int i = 0; i < n; ++i) {
+          Eigen::Vector3d p;
+          in >> p[0] >> p[1] >> p[2];
+          stop->getBead(kSessionBeads[which][i])->setPos(p);
+        }
+        if (!in) throw std::runtime_error("driver: short tev command");
+        Interaction *x = stop->BondedInteractions()[which];
+        if (x->BeadCount() != n) throw std::runtime_error("driver: BeadCount mismatch");
+        for (int i = 0; i < n; ++i)
+          if (x->getBeadId(i) != kSessionBeads[which][i]) throw std::runtime_error("driver: bead ids of the list constructor");
+        std::cout << "res " << x->EvaluateVar(*stop);
+        for (int i = 0; i < n; ++i) {
+          Eigen::Vector3d g = x->Grad(*stop, i);
+          std::cout << " " << g[0] << " " << g[1] << " " << g[2];
+        }
+        std::cout << std::endl;
+      } else if (cmd == "setvec") {
+        long nlam;
+        in >> nlam;
+        Eigen::VectorXd lam(nlam);
+        for (long i = 0; i < nlam; ++i) in >> lam(i);
+        if (!in || pf->getParamSize() != nlam) throw std::runtime_error("driver: bad setvec");
+        pf->setParam(lam);
+        std::cout << "ok" << std::endl;
+      } else if (cmd == "setpar") {
+        long i;
+        double v;
+        in >> i >> v;
+        pf->setParam(i, v);
+        std::cout << "ok" << std::endl;
+      } else if (cmd == "setmin") {
+        double v;
+        in >> v;
+        pf->setMinDist(v);
+        std::cout << "ok " << pf->getMinDist() << std::endl;
+      } else if (cmd == "setcut") {
+        double v;
+        in >> v;
+        pf->setCutOffDist(v);
+        std::cout << "ok " << pf->getCutOff() << std::endl;
+      } else if (cmd == "saveparam") {
+        parfile = tmpname() + ".par";
+        pf->SaveParam(parfile);
+        print_table_file(parfile, true);
+      } else if (cmd == "loadfile") {
+        pf->setParam(parfile);
+        std::cout << "ok" << std::endl;
+      } else if (cmd == "loadparam") {
+        long n;
+        in >> n;
+        std::string fn = tmpname() + ".in";
+        {
+          std::ofstream o(fn);
+          o.precision(17);
+          for (long i = 0; i < n; ++i) {
+            double v;
+            in >> v;
+            o << i << " " << v << " i\n";
+          }
+        }
+        try {
+          pf->setParam(fn);
+        } catch (...) {
+          std::remove(fn.c_str());
+          throw;
+        }
+        std::remove(fn.c_str());
+        std::cout << "ok" << std::endl;
       } else if (cmd == "pf") {
         std::string kind;
         double mn, cut;
@@ -213,5 +340,6 @@ int main() {
       std::cout << "exc " << e.what() << std::endl;
     }
   }
+  if (!parfile.empty()) std::remove(parfile.c_str());
   return 0;
 }
